@@ -162,6 +162,17 @@ impl<A, K> Router<A, K> {
         A: Clone + Send + 'static,
         K: Clone + Send + Sync + Eq + Hash + 'static,
     {
+        // Stream::new below runs a transaction of its own, and at top level the cycle collection
+        // that ends it may free a route stream dropped earlier, whose cleanup locks the table too:
+        // keep the table locked inside a transaction only, so that the collection runs afterwards
+        self.sodium_ctx.transaction(|| self.filter_matches_(k))
+    }
+
+    fn filter_matches_(&self, k: &K) -> Stream<A>
+    where
+        A: Clone + Send + 'static,
+        K: Clone + Send + Sync + Eq + Hash + 'static,
+    {
         let mut table = self.table.write().unwrap();
         let existing_op;
         if let Some(weak_stream) = table.get(k) {
